@@ -181,6 +181,8 @@ def generate(seed, tier):
         # the tool run without -o (in a directory that already holds a file called like the envelope without its suffix, and for
         # an envelope without extension): nothing at all may be written
         cases.append({"id": f"cli-noout-{i}", "fam": "cli", "recipe": r, "no_output": True, "envname": ["local.tgz.ve", "envelope"][i % 2], "queries": []})
+        # -o names an existing directory (the envelope's own directory): the tool must not invent a file name
+        cases.append({"id": f"cli-outdir-{i}", "fam": "cli", "recipe": r, "out_is_dir": True, "envname": ["local.tgz.ve", "state_0001"][i % 2], "queries": []})
     for i in range(24 * mult):
         r = gen_hyperv.gen_recipe(rng, "quick")
         cases.append({"id": f"hv-{i}", "fam": "hyperv", "recipe": r, "dirty": i % 2, "queries": []})
@@ -270,10 +272,11 @@ def impl_run(case, built):
                 envname = case.get("envname", "in.ve")
                 (d / envname).write_bytes(b["envelope"])
                 (d / "ks.info").write_bytes(b["keystore_text"].encode())
-                if case.get("no_output"):
+                if case.get("no_output") or case.get("out_is_dir"):
                     (d / "local.tgz").write_bytes(b"an older file next to the envelope")
-                    out_path = None
-                    sys.argv = ["envelope-decrypt", str(d / envname), "-ks", str(d / "ks.info")]
+                    # with -o <dir> the only path the user named for writing is the directory itself (the open fails)
+                    out_path = str(d) if case.get("out_is_dir") else None
+                    sys.argv = ["envelope-decrypt", str(d / envname), "-ks", str(d / "ks.info")] + (["-o", str(d)] if case.get("out_is_dir") else [])
                 else:
                     out_path = str(d / "out.bin")
                     sys.argv = ["envelope-decrypt", str(d / envname), "-ks", str(d / "ks.info"), "-o", out_path]
@@ -299,6 +302,23 @@ def impl_run(case, built):
             finally:
                 sys.argv = argv
                 shutil.rmtree(d, ignore_errors=True)
+        elif fam == "vmtar-big":
+            import gen_vmtar
+            from dissect.hypervisor.util import vmtar
+            bb = gen_vmtar.build(case["recipe"])
+            fh = RecBytesIO(bb["data"])
+            handles.append((fh, bb["data"]))
+            audit_start()
+            try:
+                try:
+                    tf = vmtar.open(fileobj=fh, mode="r")
+                    for ti in tf.getmembers():
+                        if ti.isreg():
+                            tf.extractfile(ti).read(4096)
+                except Exception as e:  # noqa
+                    err["0"] = f"{type(e).__name__}: {e}"[:200]
+            finally:
+                events = audit_stop()
         elif fam == "hyperv":
             import gen_hyperv
             data, _, _ = gen_hyperv.build(case["recipe"])
@@ -434,4 +454,19 @@ def nontrivial(case, built, model):
 
 
 def search(seed, broken, budget):
-    return generate(seed + 500, "thorough")[: min(budget, 1200)]
+    """directed search after a broken table theorem: the thorough stream plus inputs large enough to make an in-memory spool spill"""
+    import gen_envelope
+    import gen_vmtar
+    rng = random.Random(f"C09/search/{seed}")
+    big = []
+    r = gen_envelope.gen_recipe(rng, "quick")
+    r["plen"], r["padding"] = 40 << 20, 0
+    big.append({"id": "env-big", "fam": "envelope", "recipe": r, "wrongkey": False, "queries": []})
+    t = gen_vmtar.gen_recipe(rng, "quick")
+    while t["huge"] or not t["members"]:
+        t = gen_vmtar.gen_recipe(rng, "quick")
+    m = dict(t["members"][0], visor=True, type="file", pre="", base="big.bin", long=False, magic="visor", size=40 << 20, place="area", tf="0")
+    m.pop("alias", None); m.pop("edge", None); m.pop("link", None)
+    t2 = dict(t, members=[m], area=[0], gaps=[0], huge=0, gz=True, gzcuts=[], flavor="visor")
+    big.append({"id": "vgz-big", "fam": "vmtar-big", "recipe": t2, "queries": []})
+    return big + generate(seed + 500, "thorough")[: min(budget, 1200)]
